@@ -90,9 +90,15 @@ class Run:
 
     # ---------------------------------------------------------------- TLC
     def spec_dir(self, name):
+        # the specification is snapshotted once per run (a run must not see half of a later edit)
+        snap = os.path.join(self.dir, "spec-snapshot")
+        if not os.path.isdir(snap):
+            os.makedirs(snap)
+            for f in glob.glob(os.path.join(SPEC, "*.tla")):
+                shutil.copy(f, snap)
         d = os.path.join(self.dir, name)
         os.makedirs(d, exist_ok=True)
-        for f in glob.glob(os.path.join(SPEC, "*.tla")):
+        for f in glob.glob(os.path.join(snap, "*.tla")):
             shutil.copy(f, d)
         return d
 
